@@ -13,13 +13,16 @@ TECHNIQUE = ("round trip through an independent reference lexer: walker streams 
              "driven by the known element context, must read back exactly the given tokens")
 RULE = ("Streams obtained by walking (etree / dom) trees parsed from Hypothesis markup soup (documents and fragments, both scripting flags; foreign content, raw-text and RCDATA elements, "
         "odd names, quotes and markup characters in text and attribute values) x serializer options {quote_attr_values, quote_char, minimize_boolean_attributes, use_trailing_solidus, "
-        "space_before_trailing_solidus, escape_lt_in_attrs, escape_rcdata, alphabetical_attributes} with omit_optional_tags=False. Oracle: if the non-strict run records errors the case passes "
+        "space_before_trailing_solidus, escape_lt_in_attrs, escape_rcdata, alphabetical_attributes} x output encoding {none, ascii, utf-8, koi8-r, iso-8859-1, windows-1252} x "
+        "inject_meta_charset (with an encoding; the filter's designed rewrite is applied to the expectation by the tree-level model shared with C15, meta sequences are put in front of the "
+        "soup) with omit_optional_tags=False. A UnicodeEncodeError for a name/comment the encoding cannot express counts as a loud rejection. Oracle: if the non-strict run records errors the case passes "
         "(a strict run must then raise SerializeError); otherwise vf/ref/tokenizer.py re-reads the output while a driver walks the stream in step and switches the lexer state from the given "
         "element context (HTML title/textarea -> RCDATA; style/xmp/iframe/noembed/noframes -> RAWTEXT; script -> script data; plaintext -> PLAINTEXT; noscript -> RAWTEXT iff parsed with "
         "scripting; foreign elements -> CDATA allowed): tag and attribute names (ASCII case-insensitively; namespaced attributes under their qualified name), attribute values, concatenated text, "
         "comments and doctype fields must be exactly those given - nothing extra, nothing missing. Non-trivial = the stream has text/attribute data with any of < > & \" ' ` = or whitespace, "
         "or raw-text/RCDATA/foreign elements, or a doctype with identifiers; distinct = (stream signature, option record).")
-ASSUMPTIONS = ["a missing and an empty doctype identifier are not distinguished (walkers cannot tell them apart)", "the self-closing flag read back for '<br />' is not compared",
+ASSUMPTIONS = ["output bytes are decoded with the same Python codec before lexing; only codecs that round-trip every character they encode are used",
+               "a missing and an empty doctype identifier are not distinguished (walkers cannot tell them apart)", "the self-closing flag read back for '<br />' is not compared",
                "vf/ref/tokenizer.py is the lexer of reference (see C02)"]
 SHRINK = {"text": "str"}
 
@@ -178,7 +181,20 @@ def read_back(output, expected, scripting, alphabetical):
     return None
 
 
-def known_triggers(stream, opts, scripting):
+import re as _re
+_LONE = _re.compile("[\ud800-\udfff]")
+_C1 = _re.compile("[\x80-\x9f]")
+
+
+def _unencodable(s, enc):
+    try:
+        s.encode(enc)
+        return False
+    except UnicodeEncodeError:
+        return True
+
+
+def known_triggers(stream, opts, scripting, enc=None):
     """feature classifiers of the recorded serializer defects -> list of finding ids whose trigger is present"""
     from html5lib.constants import booleanAttributes
     out = []
@@ -198,6 +214,10 @@ def known_triggers(stream, opts, scripting):
             for (ns, local), v in t["data"].items():
                 if ns is not None:
                     out.append("C08-attr-prefix-dropped")
+                if enc and _LONE.search(v):
+                    out.append("C08-lone-surrogate-encoded")
+                if enc and any(_unencodable(c, enc) for c in _C1.findall(v)):
+                    out.append("C08-c1-unrepresentable")
                 if opts.get("minimize_boolean_attributes", True) and v != "" and (local in booleanAttributes.get(t["name"], ()) or local in booleanAttributes.get("", ())):
                     out.append("C08-boolean-minimisation-value")
             if html and t["name"] == "plaintext":
@@ -209,9 +229,15 @@ def known_triggers(stream, opts, scripting):
                 open_el.pop()
         elif ty in ("Characters", "SpaceCharacters"):
             d = t["data"]
+            if enc and _LONE.search(d):
+                out.append("C08-lone-surrogate-encoded")
+            if enc and any(_unencodable(c, enc) for c in _C1.findall(d)):
+                out.append("C08-c1-unrepresentable")
             if open_el:
                 html, name = open_el[-1]
                 inside_raw = any(n in SER_RAW for (h, n) in open_el)
+                if enc and inside_raw and _unencodable(d, enc):
+                    out.append("C08-rawtext-unencodable-charref")
                 if ("<" in d or "&" in d or ">" in d) and inside_raw:
                     if not html and name in SER_RAW:
                         out.append("C08-foreign-rawtext-namesake")
@@ -254,23 +280,41 @@ def check_case(case):
     fl = obs.flat(tree)
     if _void_with_children(fl):
         return Verdict("excluded", finding="void-listed element with children (C11 known finding)")
-    given = own_stream(fl)
-    ser = HTMLSerializer(omit_optional_tags=False, inject_meta_charset=False, **opts)
+    enc = opts.pop("_encoding", None)
+    inject = bool(opts.pop("_inject", False) and enc)
+    if inject:
+        # the configured inject_meta_charset filter rewrites / adds a declaration by design: what is "given" to the writer is the
+        # tree after that rewrite (tree-level model shared with C15); everything else must still come through exactly
+        heads = [r for r in fl if r[1] == "elem" and r[3] == "head"]
+        if any(r[2] not in (None, HTML_NS) for r in heads) or len(heads) > 1:
+            return Verdict("excluded", finding="several / foreign head elements with inject_meta_charset (the filter's choice among them is not modelled)")
+        from vf.props.c15 import model
+        given = own_stream(model(fl, enc))
+    else:
+        given = own_stream(fl)
+    ser = HTMLSerializer(omit_optional_tags=False, inject_meta_charset=inject, **opts)
     try:
-        out = ser.render(iter([dict(t, data=dict(t["data"])) if isinstance(t.get("data"), dict) else dict(t) for t in stream]))
+        out = ser.render(iter([dict(t, data=dict(t["data"])) if isinstance(t.get("data"), dict) else dict(t) for t in stream]), enc)
+        if enc:
+            out = out.decode(enc)
+    except UnicodeEncodeError as e:
+        if enc:
+            # a name, comment or doctype that the output encoding cannot express: rejected loudly, nothing is silently altered
+            return Verdict("pass", nontrivial=False, classes=["unencodable-raised"])
+        return Verdict("fail", "serializer raised %s: %s on the stream of %s" % (type(e).__name__, short(str(e), 100), short(text, 200)), "exception:" + type(e).__name__, nontrivial=True)
     except Exception as e:
         return Verdict("fail", "serializer raised %s: %s on the stream of %s" % (type(e).__name__, short(str(e), 100), short(text, 200)), "exception:" + type(e).__name__, nontrivial=True)
     exp = expected_tokens(given, alphabetical)
     special = set("<>&\"'`= \t\n")
     nontrivial = any((e[0] == "chars" and set(e[1]) & special) or (e[0] == "start" and (e[3] not in (None, HTML_NS) or e[1] in RCDATA + RAWTEXT + ("script",) or any(set(v) & special for k, v in e[2])))
                      or (e[0] == "doctype" and (e[2] or e[3])) for e in exp)
-    sig = sig64(repr(exp), sorted(opts.items()))
+    sig = sig64(repr(exp), sorted(opts.items()), enc, inject)
     classes = ["walker:" + walker] + (["errors-reported"] if ser.errors else [])
     if ser.errors:
-        s2 = HTMLSerializer(omit_optional_tags=False, inject_meta_charset=False, **opts)
+        s2 = HTMLSerializer(omit_optional_tags=False, inject_meta_charset=inject, **opts)
         s2.strict = True
         try:
-            s2.render(iter([dict(t, data=dict(t["data"])) if isinstance(t.get("data"), dict) else dict(t) for t in stream]))
+            s2.render(iter([dict(t, data=dict(t["data"])) if isinstance(t.get("data"), dict) else dict(t) for t in stream]), enc)
             return Verdict("fail", "non-strict run recorded %r but strict mode raised nothing; input %s" % (ser.errors[:2], short(text, 200)), "strict-silent", nontrivial=nontrivial)
         except SerializeError:
             pass
@@ -280,11 +324,11 @@ def check_case(case):
     res = read_back(out, exp, scripting, alphabetical)
     if res is None:
         return Verdict("pass", nontrivial=nontrivial, sig=sig, classes=classes)
-    trig = [f for f in known_triggers(given, opts, scripting) if active(f)]
+    trig = [f for f in known_triggers(given, opts, scripting, enc) if active(f)]
     if trig:
         return Verdict("known", finding="+".join(trig), nontrivial=nontrivial, sig=sig, classes=classes)
     bucket, msg = res
-    return Verdict("fail", "%s; no error was reported; opts=%s walker=%s scripting=%s container=%r\ninput %s\noutput %s" % (msg, opts, walker, scripting, container, short(text, 250), short(out, 400)),
+    return Verdict("fail", "%s; no error was reported; opts=%s walker=%s scripting=%s container=%r\ninput %s\noutput %s" % (msg, dict(opts, encoding=enc, inject_meta_charset=inject), walker, scripting, container, short(text, 250), short(out, 400)),
                    "lexical:" + bucket, nontrivial=nontrivial, sig=sig, classes=classes)
 
 
@@ -296,6 +340,9 @@ def decode_opts(data):
         o["quote_char"] = qc
     for k in ("minimize_boolean_attributes", "use_trailing_solidus", "space_before_trailing_solidus", "escape_lt_in_attrs", "escape_rcdata", "alphabetical_attributes", "resolve_entities"):
         o[k] = bool(dec.below(2))
+    # output encoding (None = str output) and, with it, the meta-charset filter; popped before the options reach HTMLSerializer
+    o["_encoding"] = dec.pick([None, None, None, "ascii", "ascii", "utf-8", "koi8-r", "iso-8859-1", "windows-1252"])   # codecs that round-trip every character they encode (shift_jis maps U+00A5 to 0x5C)
+    o["_inject"] = bool(dec.below(2))
     return o
 
 
@@ -305,14 +352,21 @@ def shards(tier):
     return [{"kind": "hyp", "profile": profs[i % len(profs)], "n": 3500 if quick else 50000} for i in range(16)]
 
 
+# declarations and other meta elements in front of the soup: what the meta-charset filter may and may not touch
+HEADS = ["", "", "", "", "", "<meta charset=x>", "<meta http-equiv=content-type content='text/html; charset=x'>", "<meta http-equiv=content-type content=a><meta name=d content=e>",
+         "<meta name=d content=e><meta http-equiv=Content-Type content=a>", "<meta http-equiv=content-type><meta content=z>",
+         "<head><meta content=q name=r></head><meta http-equiv=content-type content=1><meta content=2>", "<meta charset=a><meta charset=b content=c>",
+         "<title>t</title><meta content=3 http-equiv=CONTENT-TYPE><p><meta content=4>", "<meta content=5><meta charset=y><meta content=6 name=n>"]
+
+
 def run_shard(desc, seed, tier):
     acc = Acc()
     strat = st.tuples(soup.soup_text(profile=desc["profile"], max_items=30), st.one_of(st.none(), st.none(), st.sampled_from(soup.CONTEXTS)), st.booleans(), st.sampled_from(["etree", "dom"]),
-                      st.binary(min_size=10, max_size=10))
+                      st.binary(min_size=12, max_size=12), st.sampled_from(HEADS))
 
     def fn(x):
-        (profile, text), container, scripting, walker, od = x
-        case = {"text": text, "container": container, "scripting": scripting, "walker": walker, "opts": decode_opts(od)}
+        (profile, text), container, scripting, walker, od, head = x
+        case = {"text": head + text, "container": container, "scripting": scripting, "walker": walker, "opts": decode_opts(od)}
         acc.add(case, check_case(case))
     drive(strat, fn, desc["n"], seed)
     return acc
